@@ -24,12 +24,23 @@ func newNumberDecoder(structName, fieldName string, op func(unsafe.Pointer, json
 	}
 }
 
+// isRangeError reports whether err only says that the literal does not fit a float64;
+// a json.Number keeps the text of the literal, so such a number is still valid.
+func isRangeError(err error) bool {
+	numErr, ok := err.(*strconv.NumError)
+	return ok && numErr.Err == strconv.ErrRange
+}
+
 func (d *numberDecoder) DecodeStream(s *Stream, depth int64, p unsafe.Pointer) error {
 	bytes, err := d.decodeStreamByte(s)
 	if err != nil {
 		return err
 	}
-	if _, err := strconv.ParseFloat(*(*string)(unsafe.Pointer(&bytes)), 64); err != nil {
+	if bytes == nil {
+		// null: leave the destination as it is
+		return nil
+	}
+	if _, err := strconv.ParseFloat(*(*string)(unsafe.Pointer(&bytes)), 64); err != nil && !isRangeError(err) {
 		return errors.ErrSyntax(err.Error(), s.totalOffset())
 	}
 	d.op(p, json.Number(string(bytes)))
@@ -42,7 +53,11 @@ func (d *numberDecoder) Decode(ctx *RuntimeContext, cursor, depth int64, p unsaf
 	if err != nil {
 		return 0, err
 	}
-	if _, err := strconv.ParseFloat(*(*string)(unsafe.Pointer(&bytes)), 64); err != nil {
+	if bytes == nil {
+		// null: leave the destination as it is
+		return c, nil
+	}
+	if _, err := strconv.ParseFloat(*(*string)(unsafe.Pointer(&bytes)), 64); err != nil && !isRangeError(err) {
 		return 0, errors.ErrSyntax(err.Error(), c)
 	}
 	cursor = c
